@@ -21,8 +21,10 @@ Well-formedness (`StepOk`): `MasksOk w` (archetype masks sorted, duplicate-free:
 `C02.Located`); `assign<C>(e, args)` / builder `assign<C>` only for a component the entity lacks, builder arguments
 pairwise distinct; calls recorded under lock come from a thread that owns a command buffer; every pack flushed by
 the outermost `unlock` meets `PackLifeOK` in the state it is applied to (creation: sorted mask; other packs: the
-target, if still valid, sits at a row of its archetype, whose mask is closed under the dependencies declared so far
-and whose key is unique: `C02.PackOK` + `RowInv.keys` + dependencies declared before use).
+target, if still valid, sits at a row of its archetype: `C02.PackOK`). NOTHING is assumed about archetype masks being
+closed under the dependency table: a dependency may be declared after an archetype holding the master exists (an
+entity whose set a pack does not change stays in its archetype without a lookup; a changed set is looked up whatever
+the old mask was), see `lateHist` below.
 -/
 namespace Mustache.Props.C03Life
 open Mustache.Model Mustache.Proofs.Life Mustache.Proofs.Rows
@@ -149,18 +151,14 @@ theorem masksOk_of_rowInv_keys {w : WM} (hk : KeysOK w) : MasksOk w := masksOk_o
 /-- `C02.Located` (the operand's location is its own row) gives `LocIn` -/
 theorem locIn_of_located' {w : WM} {e : Handle} (h : Located w e) : LocIn w e := locIn_of_located h
 
-/-- `C02.PackOK`, `RowInv.keys` and "archetype masks are closed under the declared dependencies" (dependencies are
-declared before the archetypes that use them exist) give `PackLifeOK` -/
-theorem packLifeOK_of_packOK {w : WM} (hk : KeysOK w) (pack : List Cmd) (hp : PackOK w pack)
-    (hclosed : ∀ a, a < w.archs.length → closedMask w.deps (w.arch a).mask = (w.arch a).mask) :
-    PackLifeOK w pack := by
+/-- `C02.PackOK` alone gives `PackLifeOK` (no closedness of the archetype masks under the dependency table, no
+uniqueness of keys) -/
+theorem packLifeOK_of_packOK {w : WM} (pack : List Cmd) (hp : PackOK w pack) : PackLifeOK w pack := by
   have hnc : ∀ first : Cmd, Located w first.entity →
       (w.isValid first.entity = true → ∀ pi, (w.locOf first.entity).arch = some pi →
         TargetOK w first.entity pi) := by
     intro first hloc _ pi hpi
-    have hidx := locIn_of_located hloc pi hpi
-    have hlt := lt_archs_of_rows hidx
-    exact ⟨hidx, hclosed pi hlt, fun aj haj hm hd => hk.distinct aj pi haj hlt hm hd⟩
+    exact ⟨locIn_of_located hloc pi hpi⟩
   cases pack with
   | nil => trivial
   | cons first rest =>
@@ -199,5 +197,36 @@ example : (cat 6).counted = true ∧ (cat 1).counted = true := by decide
 example : PackOK (run cat {} (hist.take 8)) [Cmd.assign e3 6 (some 7)] ∧ KeysOK (run cat {} (hist.take 8)) :=
   ⟨located_of_row (rowsOK_of_check (by decide)) (inRowAt_of_check (by decide) : InRowAt _ e3 0 0),
    keysOK_of_check (by decide)⟩
+
+/-! ## a dependency declared AFTER an archetype holding the master exists -/
+
+/-- `e0` is created with B; then "B requires G" is declared (the archetype {B} stays as it is, its mask is no longer
+closed under the table); under lock H is assigned to `e0` with a value, B is re-assigned (stale instance replaced in
+place) of a second entity `e1`, whose set does not change: it stays in the unclosed {B} (destroy + move-construct in
+row 0 of archetype 0, G is NOT added), while the flush moves `e0` to {B,G,H}; a second round re-assigns B of `e1`
+again and destroys `e0` -/
+def lateHist : List (Op Handle) :=
+  [ .create 0 [1] [], .create 0 [1] [], .dep 1 [6], .lock, .assign 0 e0 7 (some 9), .assign 0 e1 1 (some 4), .unlock,
+    .lock, .assign 0 e1 1 (some 5), .destroy 0 e0, .unlock, .update ]
+
+/-- the hypotheses of `run_events_accepted_init` hold for it … -/
+example : RunOk cat {} lateHist := runOk_of_check cat lateHist {} (by decide)
+/-- … although the archetype the deferred commands find the entities in is NOT closed under the table -/
+example : let w := run cat {} (lateHist.take 6)
+    (w.locOf e0).arch = some 0 ∧ (w.arch 0).mask = [1] ∧ closedMask w.deps (w.arch 0).mask = [1, 6] := by decide
+/-- after the first flush `e0` sits in {B,G,H}, `e1` still in the unclosed {B} -/
+example : let w := run cat {} (lateHist.take 7)
+    ((w.locOf e0).arch.map (fun a => (w.arch a).mask), (w.locOf e1).arch.map (fun a => (w.arch a).mask)) =
+      (some [1, 6, 7], some [1]) := by decide
+example : accepts SlotState.empty (runEvents cat {} lateHist) = some (slotsOf (run cat {} lateHist)) :=
+  run_events_accepted_init cat lateHist (runOk_of_check cat lateHist {} (by decide))
+example : accepts SlotState.empty (runEvents cat {} lateHist ++ (run cat {} lateHist).teardownEvents) =
+    some SlotState.empty := by
+  have := teardown_leaves_nothing cat {} lateHist (runOk_of_check cat lateHist {} (by decide))
+  rwa [slotsOf_init] at this
+/-- the counts of B and G along it and at teardown -/
+example : (evCount (runEvents cat {} lateHist) 1, evCount (runEvents cat {} lateHist) 6,
+    evCount ((run cat {} lateHist).teardownEvents) 1, evCount ((run cat {} lateHist).teardownEvents) 6) =
+    ((4, 3, 1, 6), (1, 0, 0, 1), (0, 0, 0, 1), (0, 0, 0, 0)) := by decide
 
 end Mustache.Props.C03Life
